@@ -333,6 +333,74 @@ func (x *Exec) valEq(st *State, a, b *Val) string {
 }
 
 func (x *Exec) binop(st *State, op token.Token, a, b *Val, ta, tb, tr types.Type, pos token.Pos) *Val {
+	r := x.binop0(st, op, a, b, ta, tb, tr, pos)
+	if x.bvArith && x.sc.binder == 0 && !x.sc.bvMode && strings.HasPrefix(a.Srt, "(_ BitVec") && !isSigned(ta) && b.Srt == a.Srt {
+		x.arithLemma(op, a, b, r)
+	}
+	return r
+}
+
+// natOf names the natural-number value of an unsigned bit-vector term and states its range.
+func (x *Exec) natOf(v *Val) string {
+	var n int
+	fmt.Sscanf(v.Srt, "(_ BitVec %d)", &n)
+	if lit, ok := isLit(v.S); ok {
+		return fmt.Sprint(lit)
+	}
+	x.sc.bridge[n] = true
+	t := fmt.Sprintf("(nat%d %s)", n, v.S)
+	key := fmt.Sprintf("arith|%d|%s", n, v.S)
+	if !x.natDone[key] {
+		x.natDone[key] = true
+		pow := new(big.Int).Lsh(big.NewInt(1), uint(n)).String()
+		x.sc.assume(and("(<= 0 "+t+")", "(< "+t+" "+pow+")"))
+		x.sc.assume(eq(fmt.Sprintf("(bvof%d %s)", n, t), v.S))
+	}
+	return t
+}
+
+// arithLemma: instances relating unsigned bit-vector arithmetic to integer arithmetic (valid facts;
+// the wrap-around cases are excluded by their guards).
+func (x *Exec) arithLemma(op token.Token, a, b, r *Val) {
+	var n int
+	fmt.Sscanf(a.Srt, "(_ BitVec %d)", &n)
+	pow := new(big.Int).Lsh(big.NewInt(1), uint(n)).String()
+	na, nb := x.natOf(a), x.natOf(b)
+	switch op {
+	case token.ADD:
+		nr := x.natOf(r)
+		x.sc.assume(implies("(< (+ "+na+" "+nb+") "+pow+")", eq(nr, "(+ "+na+" "+nb+")")))
+	case token.SUB:
+		nr := x.natOf(r)
+		x.sc.assume(implies("(>= "+na+" "+nb+")", eq(nr, "(- "+na+" "+nb+")")))
+	case token.MUL:
+		_, la := isLit(a.S)
+		_, lb := isLit(b.S)
+		if la || lb {
+			nr := x.natOf(r)
+			x.sc.assume(implies("(< (* "+na+" "+nb+") "+pow+")", eq(nr, "(* "+na+" "+nb+")")))
+		}
+	case token.QUO:
+		if _, lb := isLit(b.S); lb && nb != "0" {
+			nr := x.natOf(r)
+			x.sc.assume(eq(nr, "(div "+na+" "+nb+")"))
+		}
+	case token.LSS:
+		x.sc.assume(eq(r.S, "(< "+na+" "+nb+")"))
+	case token.LEQ:
+		x.sc.assume(eq(r.S, "(<= "+na+" "+nb+")"))
+	case token.GTR:
+		x.sc.assume(eq(r.S, "(> "+na+" "+nb+")"))
+	case token.GEQ:
+		x.sc.assume(eq(r.S, "(>= "+na+" "+nb+")"))
+	case token.EQL:
+		x.sc.assume(eq(r.S, eq(na, nb)))
+	case token.NEQ:
+		x.sc.assume(eq(r.S, not(eq(na, nb))))
+	}
+}
+
+func (x *Exec) binop0(st *State, op token.Token, a, b *Val, ta, tb, tr types.Type, pos token.Pos) *Val {
 	switch op {
 	case token.EQL:
 		return scalar(tr, x.valEq(st, a, b), "Bool")
